@@ -129,10 +129,11 @@ func Progs(rc *vk.Rec) {
 					case strings.HasPrefix(ev.Kind, "sanitizer:") && (mode == "c01"):
 						rc.ViolateCase("unsafe-accepted:"+tag+":"+numClass(ev.Kind), fmt.Sprintf("accepted program [%s] run as %s C: %s at %s", p.c.ID, build, ev.Kind, ev.Node), phase, p.idx,
 							map[string]interface{}{"source": p.c.Source, "calls": p.c.Calls, "event": ev})
-					case strings.HasPrefix(ev.Kind, "compile") || strings.HasPrefix(ev.Kind, "gcc"):
-						// accepted by the checker but the emitted C does not compile: C11's clause, reported by every mode under one signature
-						rc.ViolateCase("emitted-c-rejected:"+tag+":"+numClass(ev.Kind), fmt.Sprintf("accepted program [%s]: %s %s", p.c.ID, ev.Kind, ev.Values), phase, p.idx,
-							map[string]interface{}{"source": p.c.Source, "event": ev})
+					case ev.Prop == "C11" || strings.HasPrefix(ev.Kind, "cc-failed") || strings.HasPrefix(ev.Kind, "compile") || strings.HasPrefix(ev.Kind, "gcc"):
+						// accepted by the checker but the emitted C does not compile: that is C11's
+						// clause (its own check covers it); here the program is only counted out
+						rc.Count("emitted_c_rejected_by_gcc", 1)
+						rc.Class("c-rejected|" + tag)
 					}
 				}
 				if mode != "c04" || i >= len(traces) || traces[i] == nil {
@@ -179,13 +180,23 @@ func Progs(rc *vk.Rec) {
 		batch = batch[:0]
 	}
 	accepted := 0
-	for idx := int64(0); idx < int64(nTotal); idx++ {
+	gfams := []string{"G-high-bits-zero"}
+	for idx := int64(0); idx < int64(nTotal)+int64(len(gfams)); idx++ {
 		if rc.SkipCase(phase, idx) {
 			continue
 		}
 		rc.Mark(phase, idx)
 		r := rc.RNG(phase, idx)
-		c := wprog.GenCase(r, opts)
+		o := opts
+		if idx >= int64(nTotal) {
+			// families whose accepted programs make the code generator emit
+			// undefined C (known findings): run by shard 0 only, in the c01 mode
+			if mode != "c01" || rc.Shard != 0 {
+				continue
+			}
+			o = wprog.GenOptions{Family: gfams[idx-int64(nTotal)], Variant: 0, MaxScens: 1}
+		}
+		c := wprog.GenCase(r, o)
 		if c == nil {
 			continue
 		}
@@ -264,7 +275,7 @@ func Progs(rc *vk.Rec) {
 		if rc.NSamples() < 3 && len(c.Calls) > 0 && len(c.Calls) < 12 {
 			rc.Sample(map[string]interface{}{"id": c.ID, "source": c.Source, "calls": len(c.Calls), "trace_head": headRecs(out.Trace, 3), "stats": out.Stats})
 		}
-		if accepted%cEvery == 0 {
+		if accepted%cEvery == 0 || idx >= int64(nTotal) {
 			batch = append(batch, pending{c, out, idx})
 			if len(batch) >= 24 {
 				flush()
